@@ -688,7 +688,8 @@ func deleteInPlace(s []*pb.AddrBookRecord_AddrEntry, addrs []ma.Multiaddr) []*pb
 	}
 	survived := len(s)
 Outer:
-	for i, addr := range s {
+	for i := 0; i < survived; i++ {
+		addr := s[i]
 		for _, del := range addrs {
 			if !bytes.Equal(del.Bytes(), addr.Addr) {
 				continue
@@ -699,7 +700,9 @@ Outer:
 				break Outer
 			}
 			s[i] = s[survived]
-			// we've already dealt with s[i], move to the next
+			// the entry moved into s[i] has not been examined yet, visit
+			// this index again
+			i--
 			continue Outer
 		}
 	}
